@@ -106,10 +106,10 @@ func Main(prop string) {
 		{"sync-points P<=0 F<=3", sched.Bounds{Preempt: 0, Faults: 3, Horizon: H, NoYields: true}, nil},
 		{"sync-points P<=1 F<=2 (1 request, 2 attempts)", sched.Bounds{Preempt: 1, Faults: 2, Horizon: H, NoYields: true}, oneReq},
 		{"statement-points P<=1 F<=1 (1 insert worker)", sched.Bounds{Preempt: 1, Faults: 1, Horizon: H}, par1},
-		{"sync-points P<=2 F<=0 (1 insert worker)", sched.Bounds{Preempt: 2, Faults: 0, Horizon: H, NoYields: true}, par1},
 	}
 	if r.Thorough() {
 		passes = append(passes,
+			pass{"sync-points P<=2 F<=0 (1 insert worker)", sched.Bounds{Preempt: 2, Faults: 0, Horizon: H, NoYields: true}, par1},
 			pass{"statement-points P<=1 F<=1", sched.Bounds{Preempt: 1, Faults: 1, Horizon: H}, nil},
 			pass{"sync-points P<=2 F<=1", sched.Bounds{Preempt: 2, Faults: 1, Horizon: H, NoYields: true}, nil},
 			pass{"sync-points P<=1 F<=2", sched.Bounds{Preempt: 1, Faults: 2, Horizon: H, NoYields: true}, nil},
